@@ -253,6 +253,11 @@ func main() {
 		for _, f := range files {
 			b := strings.TrimSuffix(filepath.Base(f), ".go")
 			b = strings.TrimSuffix(b, "_test")
+			if strings.HasSuffix(b, "_nt") {
+				// non-test file added to the package (e.g. the in-package audit)
+				repl[filepath.Join(*repo, pkgRel, "zz_verif_"+b+".go")] = f
+				continue
+			}
 			repl[filepath.Join(*repo, pkgRel, "zz_verif_"+b+"_test.go")] = f
 		}
 	}
